@@ -907,6 +907,19 @@ theorem gen_nowrap (rows pl cats i c : Nat) (hpl : pl ≤ rows) (hr : 1 ≤ rows
       Gen.destroy, Write.nowrap, Range.nowrap, Src.nowrap, Draw.nowrap, GenSem.nowrap, evalZ, binZ,
       cellEnv, xEnv, Vars.env] <;> omega
 
+/-- Every extracted loop whose test is `v != bound` starts at or below its bound (so it terminates
+    and covers `[lo, bound)` like the `<` form): for the constructor and mutation because
+    `patch_length ≤ size`, for crossover because the cuts obey their contracts. -/
+theorem gen_loops_sane (rows pl cats i c : Nat) (hpl : pl ≤ rows) (cut1 cut2 idx : Nat)
+    (h1 : cut1 ≤ cut2) (h2 : cut1 ≤ rows) :
+    (∀ w ∈ Gen.ctor, w.sane (cellEnv rows pl cats i c)) ∧
+    (∀ w ∈ Gen.xoverOnePoint.writes ++ Gen.xoverTwoPoints.writes ++ Gen.xoverUniform.writes,
+      w.sane (xEnv rows cats cut1 cut2 i c)) ∧
+    (∀ w ∈ Gen.destroy, w.sane (cellEnv rows pl cats i c idx)) := by
+  refine ⟨?_, ?_, ?_⟩ <;>
+    simp [Gen.ctor, Gen.xoverOnePoint, Gen.xoverTwoPoints, Gen.xoverUniform, Gen.destroy,
+      Write.sane, Range.sane, evalZ, binZ, cellEnv, xEnv, Vars.env] <;> omega
+
 /-- `team<i_mep>`: the constructor builds members `0 … n−1` (`n = env.team.individuals`) each by
     `i_mep(problem)`; `crossover(lhs, rhs)` builds members `0 … lhs.individuals()−1`, the k-th being
     `crossover(lhs[k], rhs[k])`; `mutation` mutates every member and adds up the counts;
@@ -1054,6 +1067,7 @@ example := gen_two_points_cuts 4 2 (by decide) 1 3 0 0
 example := gen_uniform_denotes ss { a with xover := 3 } b ⟨false, 0, 0, 0, fun i _ => i == 1, 0⟩ rfl (d0 4) 1 0
   (by decide) (by decide)
 example := gen_nowrap 4 1 2 0 0 (by decide) (by decide) 1 3 2
+example := gen_loops_sane 4 1 2 0 0 (by decide) 1 3 2 (by decide) (by decide)
 
 end Ex
 
